@@ -67,6 +67,7 @@ package msc
 //@   mode abstract
 //@   requires native != nil && header != nil && ctx != nil
 //@   modifies *
+//@   assume entry : errUnknownBlock != nil   -- package-level sentinel error, initialised with errors.New and never reassigned
 //@   ghost var authorized bool = false
 //@   set after "if _, ok := snap.Signers[signer]; !ok" : authorized := has(snap.Signers, signer)
 //@   ensures[c29-authorized-signer] err == nil ==> authorized
